@@ -312,6 +312,103 @@ def color_spec_lines(rng, n):
     return lines, exp
 
 
+def source_parameter_lines(rng, n):
+    """the REAL iter_source_parameter_options (all eight groups, real preset tables) on random base formats, targets and
+    level columns, against the composed model: each row is one encoding per group"""
+    import functools
+    import vc2_conformance.encoder.sequence_header as SH
+    from vc2_conformance.constraint_table import ValueSet, AnyValue
+    from vc2_conformance.pseudocode.video_parameters import set_source_defaults
+    from vc2_data_tables import BaseVideoFormats, PRESET_COLOR_SPECS
+
+    simple = [SH.iter_frame_size_options, SH.iter_color_diff_sampling_format_options, SH.iter_scan_format_options, SH.iter_frame_rate_options,
+              SH.iter_pixel_aspect_ratio_options, SH.iter_clean_area_options, SH.iter_signal_range_options]
+    specs = []
+    for fn in simple:   # read each group's definition off the real partial
+        assert isinstance(fn, functools.partial)
+        kw = fn.keywords
+        params = [(k, k) if isinstance(k, str) else k for k in kw["parameters"]]
+        specs.append((kw["flag_key"], params, kw.get("presets"), kw.get("preset_index_constraint_key")))
+    cs_presets = ";".join("%d=%d,%d,%d" % (int(i), int(v[0]), int(v[1]), int(v[2])) for i, v in PRESET_COLOR_SPECS.items())
+    cs_keys = ["color_primaries_index", "color_matrix_index", "transfer_function_index"]
+    bases = list(BaseVideoFormats)
+    lines, exp = [], []
+    for _ in range(n):
+        base_vp = set_source_defaults(rng.choice(bases))
+        target = set_source_defaults(rng.choice(bases)) if rng.random() < 0.5 else copy.deepcopy(base_vp)
+        if rng.random() < 0.8:
+            target["top_field_first"] = base_vp["top_field_first"]
+        for k in list(target):    # perturb a few values
+            if k != "top_field_first" and rng.random() < 0.12:
+                if not isinstance(target[k], bool):
+                    try:
+                        target[k] = type(target[k])(int(target[k]) ^ 1)
+                    except ValueError:   # (no such enum member)
+                        pass
+        lc = {}
+
+        def flagset():
+            f = rng.choice([(1, 1), (1, 1), (1, 1), (1, 1), (1, 1), (0, 1), (1, 0)])
+            return f, ValueSet(*[b for b, x in ((False, f[0]), (True, f[1])) if x])
+
+        def valset(v):
+            c = rng.random()
+            if c < 0.88:
+                return None, AnyValue()
+            vals = sorted(set([int(v)] if c < 0.97 else []) | set(rng.randrange(0, 6) for _ in range(rng.randrange(0, 3))))
+            return vals, ValueSet(*vals)
+
+        words = ["so", "S", str(int(bool(base_vp["top_field_first"]))), str(int(bool(target["top_field_first"])))]
+        for flag_key, params, presets, idx_key in specs:
+            f, lc[flag_key] = flagset()
+            idx = None
+            if presets is not None:
+                idx, lc[idx_key] = valset(rng.choice([0] + [int(i) for i in presets]))
+            vals = []
+            for vp_key, _ in params:
+                v, lc[vp_key] = valset(target[vp_key])
+                vals.append(v)
+            words += ["|", "G", ",".join(str(int(base_vp[k])) for k, _ in params), ",".join(str(int(target[k])) for k, _ in params),
+                      "-" if presets is None else ";".join("%d=%s" % (int(i), ",".join(str(int(x)) for x in v)) for i, v in presets.items()),
+                      str(f[0]), str(f[1]), "*" if idx is None else (",".join(map(str, idx)) or "99"),
+                      "/".join("*" if v is None else (",".join(map(str, v)) or "99") for v in vals)]
+        f, lc["custom_color_spec_flag"] = flagset()
+        idx, lc["color_spec_index"] = valset(rng.randrange(0, 5))
+        subs = []
+        for fk, ik in (("custom_color_primaries_flag", "color_primaries_index"), ("custom_color_matrix_flag", "color_matrix_index"),
+                       ("custom_transfer_function_flag", "transfer_function_index")):
+            fl, lc[fk] = flagset()
+            v, lc[ik] = valset(target[ik])
+            subs.append("%d%d:%s" % (fl[0], fl[1], "*" if v is None else (",".join(map(str, v)) or "99")))
+        words += ["|", "C", ",".join(str(int(base_vp[k])) for k in cs_keys), ",".join(str(int(target[k])) for k in cs_keys), cs_presets,
+                  str(f[0]), str(f[1]), "*" if idx is None else (",".join(map(str, idx)) or "99")] + subs
+        rows = []
+        for sp in SH.iter_source_parameter_options(base_vp, target, lc):
+            enc = []
+            for (flag_key, params, presets, idx_key), part in zip(specs, ["frame_size", "color_diff_sampling_format", "scan_format", "frame_rate",
+                                                                         "pixel_aspect_ratio", "clean_area", "signal_range"]):
+                o = sp[part]
+                if not o[flag_key]:
+                    enc.append("off")
+                elif presets is not None and o.get("index", 0) != 0:
+                    enc.append("p%d" % int(o["index"]))
+                else:
+                    enc.append("c" + ",".join(str(int(o[dk])) for _, dk in params))
+            o = sp["color_spec"]
+            if not o["custom_color_spec_flag"]:
+                enc.append("off")
+            elif o["index"] != 0:
+                enc.append("p%d" % int(o["index"]))
+            else:
+                enc.append("c" + "/".join(("c%d" % int(o[part]["index"])) if o[part][fk] else "off" for part, fk in (
+                    ("color_primaries", "custom_color_primaries_flag"), ("color_matrix", "custom_color_matrix_flag"),
+                    ("transfer_function", "custom_transfer_function_flag"))))
+            rows.append(" ".join(enc))
+        lines.append(" ".join(words))
+        exp.append(" | ".join(rows) or "-")
+    return lines, exp
+
+
 class Prop(object):
     id = "C15"
     lean_modules = ["VC2.Props.C15"]
@@ -321,7 +418,8 @@ class Prop(object):
             "that admit the format: every header of the REAL iter_sequence_headers (up to 12 per format) is serialised and decoded by the REAL validator; verdict, decoded video "
             "parameters and coding mode compared with the configuration; plus iter_custom_options_dicts and zip_longest_repeating_final_value on synthetic tables vs the model")
     trusted = ["model SeqHeader.lean tied by the so correspondence (synthetic presets, level value sets built from the real ValueSet/AnyValue classes)",
-               "the nested colour specification and the base-format ranking are covered end to end only"]
+               "composition of the eight groups: iterSourceParameters tied by so S on the real iter_source_parameter_options; the loops of iter_sequence_headers "
+               "over base formats and level columns and the base-format ranking are covered end to end only"]
     assumptions = ["formats for which the encoder raises IncompatibleLevelAndVideoFormatError are outside the property"]
 
     def correspond(self, ctx):
@@ -329,6 +427,9 @@ class Prop(object):
         self._bad = None
         lines, exp = group_lines(rng, ctx.n(600, 8000))
         ctx.diff("so iter_custom_options_dicts / zip_longest_repeating_final_value on synthetic tables: model == real", lines, exp)
+        lines, exp = source_parameter_lines(rng, ctx.n(400, 5000))
+        ctx.diff("so S the REAL iter_source_parameter_options (all eight groups read off the real partials, real preset tables, random base formats / "
+                 "targets / level columns): rows of one encoding per group, model iterSourceParameters == real", lines, exp)
         lines, exp = color_spec_lines(rng, ctx.n(800, 10000))
         ctx.diff("so iter_color_spec_options (real preset table, random level columns, nested primaries/matrix/transfer function): model == real", lines, exp)
         ctx.corr_names.append("REAL iter_sequence_headers -> serialise -> REAL validator: accepted, decodes to the configured format")
